@@ -33,6 +33,15 @@ CHECKS = {
         "note": ENGINE_NOTE,
         "technique": "TLA+ invariant UniqueOK and reference model evaluated by TLC on recorded traces (code->spec trace validation)",
     },
+    "C08": {
+        "level": "model_checking",
+        "text": "On every recorded call TLC checks, on the observation itself, that the new events are exactly Database!Exec's (none for failed/no-op calls), that "
+                "replaying them onto the contents before gives the contents after (Database!Replay), that update descriptions applied to the previous version give the "
+                "new version (ApplyDescription) and that event ids strictly increase; the real Transaction.Clean is judged with Oplog!CleanRef/EnvelopeOK on all 18,900 "
+                "configurations of the retention grid and on a real engine with small limits; TLC proves the Clean loop equals the property on the model.",
+        "note": ENGINE_NOTE + " Retention ages keep >= 5 s from every cutoff; maxAge = 0 is outside the domain.",
+        "technique": "TLA+ change-log and retention specification (Database.tla, Oplog.tla) evaluated by TLC on recorded traces and on the exhaustive retention grid",
+    },
     "C15": {
         "level": "model_checking",
         "text": "After every recorded call the listing of every index is judged by TLC with Database!IndexListingOK (exactly the documents of the partial domain, "
